@@ -49,19 +49,14 @@ def parse_off_data(data):
     for _ in range(nf):
         simplex = data.popleft()
         nvi = int(simplex[0])
-        if nvi==3:
+        if nvi>=3: # OFF elements are polygonal faces, whatever their number of vertices
             face = [int(u) for u in simplex[1:nvi+1]]
             output.faces.append(face)
             output.face_corners += [(x,i_f) for x in face]
             i_f += 1
         elif nvi==2:
-            a,b = simplex[1], simplex[2]
+            a,b = int(simplex[1]), int(simplex[2])
             output.edges.append((min(a,b), max(a,b)))
-        elif nvi==4:
-            cell = [int(u) for u in simplex[1:nvi+1]]
-            output.cells.append(cell)
-            output.cell_corners += [(x,i_c) for x in cell]
-            i_c += 1
     return output
 
 def export_off(mesh, path):
